@@ -456,12 +456,14 @@ func init() {
 		}
 		genExhaustiveHist(g, tier, w)
 		genBoundaryHist(g, tier, w)
+		genRedecode(g, tier, w)
 	})
 	registerGen("C05", func(g *Gen, tier string, w *bufio.Writer) {
 		n := tierN(tier, 200, 4000)
 		for _, t := range histTypes(g, n) {
 			genHistory(g, w, t, histOpts{steps: 6 + g.Intn(tierN(tier, 20, 120)), copies: true, snaps: true})
 		}
+		genRedecode(g, tier, w)
 	})
 	registerGen("C06", func(g *Gen, tier string, w *bufio.Writer) {
 		n := tierN(tier, 200, 4000)
@@ -484,6 +486,7 @@ func init() {
 		}
 		genIterBoundaries(g, tier, w)
 		genIterInterleaved(g, w)
+		genIterMutated(g, tier, w)
 	})
 }
 
@@ -535,6 +538,134 @@ func genSubsetHist(g *Gen, tier string, w *bufio.Writer) {
 			}
 		}
 		rec(nil)
+	}
+}
+
+// genIterMutated: the index-based iterator is advanced part of the way, the view is then shrunk,
+// grown or overwritten, and the iteration is finished.
+func genIterMutated(g *Gen, tier string, w *bufio.Writer) {
+	u8 := &Ty{Kind: KUint, N: 1}
+	u64 := &Ty{Kind: KUint, N: 8}
+	elems := []*Ty{u8, {Kind: KUint, N: 2}, u64, {Kind: KUint, N: 32}, {Kind: KBytesN, N: 32}, {Kind: KBitlist, N: 5},
+		{Kind: KContainer, Fields: []*Ty{u64, u8}}, {Kind: KList, N: 3, Elem: u8}}
+	reps := tierN(tier, 1, 6)
+	for rep := 0; rep < reps; rep++ {
+		for _, e := range elems {
+			for _, lim := range []uint64{8, 70, 1 << 30} {
+				for _, n := range []uint64{1, 2, 3, 5, 8, 33, 65} {
+					if n > lim {
+						continue
+					}
+					t := &Ty{Kind: KList, N: lim, Elem: e}
+					v := g.RandVal(&Ty{Kind: KVector, N: n, Elem: e}, 400)
+					for _, k := range []uint64{0, n / 2, n - 1, n} {
+						fmt.Fprintln(w, "begin")
+						fmt.Fprintf(w, "mk r %s %s %s\n", []string{"new", "dec"}[g.Intn(2)], t, v)
+						switch g.Intn(4) {
+						case 0, 1:
+							fmt.Fprintf(w, "iterm r %d pop\n", k)
+						case 2:
+							fmt.Fprintf(w, "iterm r %d app %s\n", k, g.RandVal(e, 8))
+						case 3:
+							fmt.Fprintf(w, "iterm r %d set %d %s\n", k, g.Intn(int(n)), g.RandVal(e, 8))
+						}
+						fmt.Fprintln(w, "obs r")
+						// two more elements removed while the iterator is alive
+						fmt.Fprintln(w, "begin")
+						fmt.Fprintf(w, "mk r new %s %s\n", t, v)
+						fmt.Fprintln(w, "pop r")
+						fmt.Fprintf(w, "iterm r %d pop\n", k/2)
+						fmt.Fprintln(w, "iter r idx")
+					}
+				}
+			}
+		}
+		for _, lim := range []uint64{9, 300, 1 << 30} {
+			for _, n := range []uint64{1, 2, 8, 9, 255, 256, 257} {
+				if n > lim {
+					continue
+				}
+				t := &Ty{Kind: KBitlist, N: lim}
+				for _, k := range []uint64{0, n / 2, n - 1, n} {
+					fmt.Fprintln(w, "begin")
+					fmt.Fprintf(w, "mk r new %s %s\n", t, &Val{Kind: VBits, Bits: g.randBits(int(n))})
+					switch g.Intn(3) {
+					case 0, 1:
+						fmt.Fprintf(w, "iterm r %d pop\n", k)
+					case 2:
+						fmt.Fprintf(w, "iterm r %d set %d %s\n", k, g.Intn(int(n)), []string{"t", "f"}[g.Intn(2)])
+					}
+					fmt.Fprintln(w, "obs r")
+				}
+			}
+		}
+		// vectors and containers: only overwriting is possible
+		for _, e := range elems {
+			n := uint64(1 + g.Intn(9))
+			t := &Ty{Kind: KVector, N: n, Elem: e}
+			fmt.Fprintln(w, "begin")
+			fmt.Fprintf(w, "mk r new %s %s\n", t, g.RandVal(t, 400))
+			fmt.Fprintf(w, "iterm r %d set %d %s\n", g.Intn(int(n)+1), g.Intn(int(n)), g.RandVal(e, 8))
+			fmt.Fprintln(w, "obs r")
+		}
+	}
+}
+
+// genRedecode: the same bytes / default / elements are turned into a view twice through the SAME
+// type definition, the first result being mutated in between: the second view must be the plain
+// value again, and later changes of either must not show in the other.
+func genRedecode(g *Gen, tier string, w *bufio.Writer) {
+	u8 := &Ty{Kind: KUint, N: 1}
+	u64 := &Ty{Kind: KUint, N: 8}
+	cont := &Ty{Kind: KContainer, Fields: []*Ty{u64, {Kind: KList, N: 4, Elem: u8}}}
+	types := []*Ty{
+		{Kind: KList, N: 40, Elem: u8}, {Kind: KList, N: 1 << 30, Elem: u64}, {Kind: KList, N: 5, Elem: &Ty{Kind: KUint, N: 32}},
+		{Kind: KBitlist, N: 300}, {Kind: KBitlist, N: 1 << 30}, {Kind: KList, N: 4, Elem: cont}, {Kind: KList, N: 1 << 30, Elem: &Ty{Kind: KBytesN, N: 32}},
+		{Kind: KList, N: 3, Elem: &Ty{Kind: KList, N: 3, Elem: u8}}, cont, {Kind: KContainer, Fields: []*Ty{{Kind: KList, N: 4, Elem: u64}, {Kind: KBitlist, N: 9}}},
+		{Kind: KVector, N: 3, Elem: u64}, {Kind: KVector, N: 2, Elem: cont}, {Kind: KBitvector, N: 12},
+		{Kind: KUnion, HasNone: true, Fields: []*Ty{u64, {Kind: KList, N: 3, Elem: u8}}},
+	}
+	reps := tierN(tier, 2, 12)
+	for _, t := range types {
+		for rep := 0; rep < reps; rep++ {
+			for _, route := range []string{"dec", "new", "def"} {
+				v := DefaultVal(t) // empty collections / zero values
+				if rep%2 == 1 && route != "def" {
+					v = g.RandVal(t, 12)
+				}
+				mk := func(name string) {
+					if route == "def" {
+						fmt.Fprintf(w, "mk %s def %s\n", name, t)
+					} else {
+						fmt.Fprintf(w, "mk %s %s %s %s\n", name, route, t, v)
+					}
+				}
+				fmt.Fprintln(w, "begin")
+				mk("r")
+				a := &shadow{name: "r", t: t, v: cloneVal(v)}
+				// an empty collection can only be changed by an append
+				if t.Kind == KList && len(a.v.Seq) == 0 && t.N > 0 {
+					nv := g.RandVal(t.Elem, 8)
+					fmt.Fprintf(w, "app r %s\n", nv)
+					a.v.Seq = append(a.v.Seq, nv)
+				} else if t.Kind == KBitlist && len(a.v.Bits) == 0 && t.N > 0 {
+					fmt.Fprintln(w, "app r t")
+					a.v.Bits = append(a.v.Bits, true)
+				}
+				for k := 0; k < 1+g.Intn(3); k++ {
+					g.mutate(w, a)
+				}
+				fmt.Fprintln(w, "obs r")
+				mk("q")
+				fmt.Fprintln(w, "obs q")
+				b := &shadow{name: "q", t: t, v: cloneVal(v)}
+				g.mutate(w, b)
+				fmt.Fprintln(w, "obs q")
+				fmt.Fprintln(w, "obs r")
+				mk("p")
+				fmt.Fprintln(w, "obs p")
+			}
+		}
 	}
 }
 
